@@ -1,5 +1,6 @@
 // C09 — XEP-0198 accounting: BFS worker. A real QXmppClient over loopback against a scripted SM-speaking server;
 // a 60-line reference model is compared with the wire and with the send-task reports after every step.
+#include "QXmppIq.h"
 #include "QXmppMessage.h"
 #include "QXmppNonza.h"
 #include "QXmppPresence.h"
@@ -27,6 +28,7 @@ enum Ev {
     Drop,
     Resume0, Resume1, Resume2, Resume3, Resume5,
     NewSm, NewNoSm,
+    SendIq, RecvIqResultTracked,
     NEV
 };
 const char *evNames[] = {
@@ -35,7 +37,8 @@ const char *evNames[] = {
     "server <r/>", "recv(message)", "recv(presence)", "recv(iq result, unknown id)", "recv(iq get)",
     "drop connection",
     "reconnect: resumed h=0", "reconnect: resumed h=1", "reconnect: resumed h=2", "reconnect: resumed h=3", "reconnect: resumed h=5",
-    "reconnect: resume refused/new session with sm", "reconnect: new session without sm"
+    "reconnect: resume refused/new session with sm", "reconnect: new session without sm",
+    "sendIq(q1) (tracked request)", "recv(iq result for q1 from the addressee)"
 };
 int ackValue(int ev)
 {
@@ -110,6 +113,9 @@ struct Exec {
     bool verbose = false;
     int wirePos = 0;   // next unprocessed index in rig.wire
     int injected = 0;  // makes ids of injected stanzas unique
+    bool iqSent = false;
+    int iqCompletions = 0;
+    bool iqEvents = true;   // config "iq": the tracked-request events are part of the alphabet
     int sessions = 0;
 
     explicit Exec(int worker) : rig(worker) { }
@@ -344,6 +350,24 @@ struct Exec {
             rig.serverSend("<iq from='example.org' type='result' id='nobody-asked'/>");
             absorbWire(nullptr, ctx);
             break;
+        case SendIq: {
+            QXmppIq iq(QXmppIq::Get);
+            iq.setId(QStringLiteral("q1"));
+            iq.setTo(QStringLiteral("example.org"));
+            iqSent = true;
+            rig.client->sendIq(std::move(iq)).then(&rig, [this](QXmppClient::IqResult &&) { ++iqCompletions; });
+            rig.sync();
+            absorbWire(nullptr, ctx);
+            witness("tracked_iq_sent");
+            break;
+        }
+        case RecvIqResultTracked:
+            // an IQ response that completes a pending request is a stanza like any other: it counts towards h
+            ++m.in;
+            rig.serverSend("<iq from='example.org' type='result' id='q1'/>");
+            absorbWire(nullptr, ctx);
+            witness("tracked_iq_answered");
+            break;
         case RecvIqGet:
             ++m.in;
             rig.serverSend("<iq from='example.org' type='get' id='srv" + QByteArray::number(++injected) + "'><query xmlns='urn:verif:unknown'/></iq>");
@@ -486,6 +510,9 @@ struct Exec {
             for (int r : { RecvMsg, RecvPres, RecvIqResult, RecvIqGet }) {
                 e.push_back(r);
             }
+            if (iqEvents) {
+                e.push_back(iqSent ? RecvIqResultTracked : SendIq);
+            }
             e.push_back(Drop);
         } else {
             if (m.canResume && m.sm) {
@@ -510,9 +537,9 @@ struct Exec {
             const auto &x = tasks[t];
             ts << QStringLiteral("%1%2%3%4%5%6").arg(x.sent).arg(x.reports).arg(x.acknowledged).arg(x.error).arg(x.modelCovered).arg(x.modelFailedAtSend);
         }
-        return QStringLiteral("M open%1 sm%2 cr%3 out%4 in%5 un[%6] cov%7 | T %8 | I %9")
+        return QStringLiteral("M open%1 sm%2 cr%3 out%4 in%5 un[%6] cov%7 | T %8 q%9%10 | I %11")
             .arg(m.open).arg(m.sm).arg(m.canResume).arg(m.out).arg(m.in).arg(un.join(QLatin1Char(','))).arg(m.covered.size())
-            .arg(ts.join(QLatin1Char(' ')), rig.coreSnapshot());
+            .arg(ts.join(QLatin1Char(' '))).arg(iqSent).arg(iqCompletions).arg(rig.coreSnapshot());
     }
 };
 
@@ -529,9 +556,10 @@ int main(int argc, char **argv)
         }
         return QJsonObject { { QStringLiteral("property"), QStringLiteral("C09") }, { QStringLiteral("events"), evs } };
     };
-    h.run = [](const QJsonObject &, const std::vector<int> &history, bool verbose) {
+    h.run = [](const QJsonObject &config, const std::vector<int> &history, bool verbose) {
         Exec x(workerId());
         x.verbose = verbose;
+        x.iqEvents = config.value(QStringLiteral("iq")).toBool(true);
         if (!x.firstLogin()) {
             x.violate(QStringLiteral("negotiation-failed"), QStringLiteral("first login: ") + x.rig.error);
         } else {
